@@ -2,7 +2,7 @@
    Extracted to OCaml (ocaml/main.ml feeds it one line at a time) and also evaluated
    inside Coq with vm_compute for the extraction cross-check. *)
 From Coq Require Import List String.
-From RashV Require Import Sexp StateCase UsageCase EngineCase FindCase.
+From RashV Require Import Sexp StateCase UsageCase EngineCase FindCase TplCase ExecCase.
 Import ListNotations.
 Open Scope string_scope.
 
@@ -18,6 +18,8 @@ Definition dispatch (e : sexp) : option sexp :=
   | SList (Atom "canon" :: _) => run_canon e
   | SList (Atom "engine" :: _) => run_engine e
   | SList (Atom "find" :: _) => run_find e
+  | SList (Atom "plain" :: _) => run_plain e
+  | SList (Atom "splitws" :: _) => run_splitws e
   | _ => None
   end.
 
